@@ -20,6 +20,31 @@ from .core import Sym, sx, parse_sx
 
 KEYS = ["a", "b", "c", "n", "m", "e"]
 
+_FIXED_H = []
+
+
+def fixed_c20h():
+    """whether the tree under test carries the repair of C20-h (LazyStackedTensorDict._multithread_rebuild looks inside a
+    tensorclass out=): read off the source with ast, never by importing it"""
+    if not _FIXED_H:
+        import ast
+        from .core import REPO
+        val = False
+        try:
+            src = open(os.path.join(REPO, "tensordict", "_lazy.py")).read()
+            for node in ast.walk(ast.parse(src)):
+                if isinstance(node, ast.ClassDef) and node.name == "LazyStackedTensorDict":
+                    for f in node.body:
+                        if isinstance(f, ast.FunctionDef) and f.name == "_multithread_rebuild":
+                            for c in ast.walk(f):
+                                if isinstance(c, ast.Call) and getattr(c.func, "id", None) == "is_tensorclass" and c.args \
+                                        and getattr(c.args[0], "id", None) == "out":
+                                    val = True
+        except Exception:  # noqa: BLE001
+            val = False
+        _FIXED_H.append(val)
+    return _FIXED_H[0]
+
 
 # ================================================================== generation of abstract cases
 class Ctr:
@@ -254,6 +279,10 @@ def make_case(rng, point, scene, kindname, variant):
         for m in case["members"]:
             set_lock_rec(m, locked)
         case["others_members"] = copy.deepcopy(scene["others_members"][:n_others])
+        if case["others_members"] and rng.random() < 0.05:
+            # an operand with one slice less along self's stack dim (_zip_strict)
+            j_ = rng.randrange(len(case["others_members"]))
+            case["others_members"][j_] = case["others_members"][j_][:-1]
         # the representation of every other operand: a lazy stack along each batch dim (self's and the others), a dense
         # TensorDict, a tensorclass — member i of self is paired with the slice [i] along self's stack dim in every case
         case["sd"] = sd
@@ -492,8 +521,8 @@ def model_nones(case, trees):
 
 
 def model_line(case, ran=None):
-    """the protocol line for the extracted model, or None where no model applies (lazy stacks through the stacked view
-    or a thread pool; aliased operands)"""
+    """the protocol line for the extracted model, or None where no model applies (aliased operands; a _SubTensorDict with
+    checked=True and out= + device= or a thread pool)"""
     o = case["opts"]
     kindname = case["kind"]
     if kindname == "alias":
@@ -514,7 +543,7 @@ def model_line(case, ran=None):
                 lz = [Sym("some"), [rep[1], sl if rep[1] == sd else []]]
             else:
                 lz = Sym("none")
-            ops.append([lz, full_bs, sl])
+            ops.append([lz, list(mbs[:sd]) + [len(ms)] + list(mbs[sd:]), sl])
         if case["out"] is None:
             out = Sym("none")
         else:
@@ -526,7 +555,7 @@ def model_line(case, ran=None):
         name = case.get("sd_name")
         return sx([Sym("lz"), Sym(mode), opts_sx(o),
                    [I.LAZY_SELF_ID, sd, Sym("none") if name is None else [Sym("some"), name], [tree_sx(m) for m in case["members"]]],
-                   ops, out, names_sx(o), o["con"], o["propagate"], model_nones(case, case["members"]), pi])
+                   ops, out, names_sx(o), o["con"], o["propagate"], model_nones(case, case["members"]), pi, fixed_c20h()])
     if kindname == "sub" and o["checked"]:
         # a _SubTensorDict always writes through result.set(...), i.e. validated: modelled as checked=False (except for the
         # device / out= branch, which reads `checked` itself: not modelled there)
@@ -732,6 +761,8 @@ def lazy_reference(case):
     has_out = case["out"] is not None
     if has_out and (case.get("out_repr") or "lazy") in ("other", "short"):
         return ("gray", "out= of a lazy stack is not a lazy stack / has fewer members")
+    if any(len(ms) != len(case["members"]) for ms in case["others_members"]):
+        return ("gray", "an operand with another size along the stack dim")
     if o["inplace"]:
         truthy = bool(o["bs"]) or (o["dev"] not in ("absent", None)) or bool(o["names"] not in ("absent", None) and o["names"])
         given = o["bs"] is not None or o["dev"] != "absent" or o["names"] != "absent"
@@ -791,7 +822,11 @@ def check_lazy_apply_(case, mres=None):
     sig = {"call": "lazy.apply_", "container": "lazy", "propagate": o["propagate"]}
     gray = REF.gray_reasons(dict(case, self=case["members"][0], out=None))
     per = []
+    short_op = any(len(ms) != len(case["members"]) for ms in case["others_members"])
     for i, m in enumerate(case["members"]):
+        if short_op:
+            per.append(("gray", "an operand with another size along the stack dim"))
+            continue
         per.append(REF.reference(dict(case, kind="regular", self=m, others=[ms[i] for ms in case["others_members"]], out=None)))
     if [g for g in gray if g in REF.HARD_GRAY] or any(r[0] == "gray" for r in per):
         cnt["oracle:gray"] = 1
@@ -1286,8 +1321,8 @@ def main(R):
                      "num_threads=2 runs through a deterministic executor (tasks complete in a generated permutation); num_threads=4 uses the real ThreadPoolExecutor",
                      "batch_size= is passed as torch.Size and device= as torch.device (a list / str never compares equal to out.batch_size / out.device)",
                      "gray combinations (listed in the input distribution as gray:*) are compared with the model only; the oracle demands nothing there but the frame",
-                     "lazy stacks through the stacked view (batch_size override), lazy stacks with a thread pool and aliased operands are checked by the oracle only",
-                     "the model follows /repo with the repairs of S15 / S16 / C12-b / C12-c / C20-d (thread-pool form) and of C20-a / b / c / e / f (fixes/C20/*.diff) applied"]
+                     "lazy stacks go through the model (Model/C20_Lazy.v) for every stack dim of self, other operands as a lazy stack along any dim / dense / tensorclass / one slice short, out= lazy / lazily stacked tensorclass / dense / one member short, names=, thread pools and apply_; what TensorDict._apply_nest computes on the stacked view (batch_size= without out=) is compared by batch size / device / type only and otherwise by the oracle; aliased operands are checked by the oracle only",
+                     "the model follows /repo (HEAD c481535); the repair of C20-h is detected in the tree under test (ast) and handed to the model as a flag"]
     R.trusted = ["harness/c20_ref.py: the reference (nested dicts) is my reading of the documented contract of apply"]
     t00 = time.time()
     R.step_prove()
